@@ -17,14 +17,16 @@ MANIFEST = {
                  "selectors and custom values (atomic rejection, r*|value| law); vm_compute correspondence of constructor grids and "
                  "setter histories; sign/atomicity oracle",
     "level_text": "C14_constructor, C14_arrays, C14_step, C14_invariant (induction over all operation sequences), C14_atomic, C14_relative and "
-                  "C14_negative_rejected are machine-checked, closed under the global context, about a hand-written model of the validation "
+                  "C14_negative_rejected, and for the Monte Carlo mode statistic C14_mode_uncertainty / C14_mode_uncertainty_of_samples (the "
+                  "reported uncertainty of every sample list is a non-negative multiple of a bin width), are machine-checked, closed under the global context, about a hand-written model of the validation "
                   "code of MeasuredValue / RepeatedlyMeasuredValue / DerivedValue / _get_error_array_helper / use_custom_value_and_error. "
                   "The model is tied to the code by an exhaustive grid of constructor arguments (negative, zero, positive numbers, None, "
                   "non-numbers, lists with one bad entry, wrong lengths) for Measurement, (value, error) operands, MeasurementArray and "
                   "XYDataSet, and by random setter histories on single, repeated and calculated quantities; the oracle checks the sign of "
                   "every uncertainty and that a rejected request leaves value, uncertainty and class unchanged.",
     "level_note": "Trusted: Coq kernel; hand-written model validated by correspondence; that a calculated quantity's own propagated "
-                  "uncertainty is >= 0 is a hypothesis here (sqrt of a checked sum: C01; sample standard deviation: C02/C16); statistics "
+                  "uncertainty is >= 0 is a hypothesis here for the derivative method and the mean/std statistic (sqrt of a checked sum: C01; "
+                  "sample standard deviation: C02/C16) and a theorem for the mode statistic; statistics "
                   "of a repeated measurement are inputs (their values are C10); NaN/inf arguments excluded.",
     "design_ref": "DESIGN.md section 4 C14",
 }
